@@ -1055,6 +1055,27 @@ def _ebadf_source(F, h, fdname, helpers_ok):
     return None, None
 
 
+def _ebadf_mir(F, d, idx):
+    """MIR alternative to `lookup(fd).ok_or(EBADF)?`: an `Err(EBADF)` result on the None edge of a look-up of the descriptor
+    parameter in the descriptor table (`let Some(x) = fds.get(&fd) else { return Err(EBADF) }`, `match .. { None => return Err(EBADF) }`)."""
+    body = F.bodies.get(d)
+    if body is None:
+        return None
+    du = Q.DefUse(body)
+    from_param = Q.forward_taint(body, {idx + 1}) | {idx + 1}
+    for blk, j, st in Q.find_aggregates(body, 'core::result::Result', 'Err'):
+        if not any(isinstance(o, dict) and str(o.get('cdef') or '').endswith('errno::Errno::EBADF') for o in st['rv']['ops']):
+            continue
+        for org, lab, e in Q.implied_conditions(F, body, du, blk):
+            if org['k'] != 'discr' or lab != ('variant', 'None'):
+                continue
+            src = Q.value_source(body, du, {'cp': {'l': org['pl']['l']}})
+            if src is not None and Q.callee_is(src, [re.compile(r'btree::map::BTreeMap::<K, V, A>::(get|get_mut|remove|get_key_value)$')]) and \
+                    any((Q.operand_place(a) or {}).get('l') in from_param for a in src['a'][1:]):
+                return 'Err(EBADF) on the None edge of the descriptor-table look-up'
+    return None
+
+
 def _impl_fn(F, adt, key):
     tn, mn = key.split('::')
     d = [it['def'] for i in F.impls if i.get('self_adt') == adt and last(i.get('trait_def') or '') == tn
@@ -1192,6 +1213,8 @@ def r6(cx):
         cx.fn(d)
         fdname = _param_names(hh)[idx]
         why, node = _ebadf_source(F, hh, fdname, helpers_ok)
+        if not why:
+            why = _ebadf_mir(F, d, idx)
         cx.site('%s: unopened descriptor => EBADF: %s' % (key, why or 'NOT FOUND'))
         cx.cellcount(1)
         if not why:
